@@ -1,11 +1,11 @@
 # property -> (title, Proofs imports, [(theorem name, proofs file, lemma, comment)], intro comment)
-SPEC['C01'] = ('Top-down require returns what a from-scratch build would return', ['Local', 'Local2', 'History', 'ExecInv', 'ExecSession', 'Cert', 'Stable', 'NoBug4', 'Sim', 'NoAbort', 'Final', 'C01Witness'], [
+SPEC['C01'] = ('Top-down require returns what a from-scratch build would return', ['Local', 'Local2', 'History', 'ExecInv', 'ExecSession', 'Cert', 'Stable', 'NoBug4', 'Sim', 'NoAbort', 'Final', 'C01Witness', 'SimAll'], [
   ('C01_returns_cached_partial', 'Local2', 'make_consistent_returns_cached',
    'partial: whatever make_task_consistent returns is the cached output of the task, and the task is marked consistent for the session'),
   ('C01_reuse_needs_all_consistent_partial', 'Local', 'check_deps_inconsistent',
    'partial: a recorded resource dependency whose checker reports Inconsistent ends validation with "inconsistent" (no reuse)'),
 ], 'The full statement is proved for the class spelled out in the hypotheses of C01_incremental_equals_scratch (no target twice per execution, direct require of the generator before reading its product, exact write checkers, total stampers); programs outside that class (repeated targets, transitive generator requires, coarse write checkers) are decided by the correspondence run and the fresh-instance oracle.')
-SPEC['C02'] = ('Top-down build does no unnecessary work', ['Local', 'Local2', 'History', 'ExecInv', 'ExecSession', 'Justify', 'Cert', 'Stable', 'NoBug4', 'Sim', 'NoAbort', 'Final', 'Valid', 'Idem', 'C01Witness'], [
+SPEC['C02'] = ('Top-down build does no unnecessary work', ['Local', 'Local2', 'History', 'ExecInv', 'ExecSession', 'Justify', 'Cert', 'Stable', 'NoBug4', 'Sim', 'NoAbort', 'Final', 'Valid', 'Idem', 'C01Witness', 'SimAll'], [
   ('C02_at_most_once_per_session', 'Final', 'session_at_most_once',
    'for ALL programs, checkers, fuel, stores satisfying the store invariants J (every store reachable by top-down histories does: C19_no_internal_error_all_histories) and ALL sessions of requires: the session event stream contains no task execution twice (also when the session ends in an abort)'),
   ('C02_executed_only_if_not_yet_consistent', 'ExecSession', 'session_require_execs',
@@ -90,7 +90,7 @@ SPEC['C18'] = ('Checker errors during validation never cause stale reuse and are
   ('C18_td_error', 'Local', 'check_deps_error', 'top-down: an erring resource checker ends validation with "inconsistent", pushes the error, never aborts'),
   ('C18_bu_error', 'Local', 'try_schedule_error', 'bottom-up: an erring checker pushes the error and schedules the task'),
 ], 'For arbitrary checker records and worlds.')
-SPEC['C19'] = ('An aborted build leaves the Pie instance usable and sound', ['Local', 'History', 'ExecInv', 'ExecSession', 'Cert', 'Stable', 'NoBug4', 'NoBug4All', 'NoReentry', 'NoBugAll', 'Sim', 'Final', 'Findings'], [
+SPEC['C19'] = ('An aborted build leaves the Pie instance usable and sound', ['Local', 'History', 'ExecInv', 'ExecSession', 'Cert', 'Stable', 'NoBug4', 'NoBug4All', 'NoReentry', 'NoBugAll', 'Sim', 'Final', 'Findings', 'SimAll'], [
   ('C19_no_internal_error_any_history', 'NoBugAll', 'no_internal_error_any_history', 'for ALL programs, checkers, fuel and ALL histories -- top-down requires and bottom-up builds in any mix, any number of aborted builds at any point: every build either completes or aborts for a user-level reason (task panic, cyclic dependency, hidden dependency, overlapping write); none of the internal "BUG" panics (check of a reserved dependency, no output for a consistent task, no dependency found at update, edge without data, no output for an unaffected task, node missing) can occur; the store invariants and "a reserved edge only leaves a task without output" hold in every reachable state'),
   ('C19_store_invariants_any_history', 'NoBug4All', 'history_no_bug4', 'for ALL programs, checkers and histories, top-down, bottom-up and mixed, with any number of aborted builds at any point: the instance is left with a well-formed store (acyclic, gap-free ranks, typed edges, single writer) and never with a "node missing" internal error'),
   ('C19_any_session_from_invariant', 'NoBug4All', 'run_session_R', 'the step form: from ANY world satisfying the invariant L (store invariants + the executing task and all queued tasks have nodes), any session (requires, bottom-up builds, aborted or not) ends in a world satisfying L again'),
@@ -181,6 +181,34 @@ TOTAL_BINDERS = '''  forall (gen : res -> option task) (wck : rcid -> Prop) (ord
   (forall t, WFP gen wck t [] (P t)) ->                              (* no target twice; generator required before its product is read; writes only to own products *)
   (forall t, WFO ord t (P t)) ->                                     (* requires go down in a well-founded order; no task panics *)
 '''
+RAW['C01'] += [
+  ('C01_incremental_equals_scratch_any_history',
+   'THE property over EVERY history ("whatever was built before"): top-down requires AND bottom-up builds in any mix, external changes, any number of aborted builds. A session requiring ANY sequence of root tasks that returns, returns exactly what the same session returns on a fresh store holding the current resources, and leaves the same resource contents. SimAll.v: the simulation of Sim.v needs of the incremental side only the store invariants and the exact-record invariant K, which NoBugAll.v / CertAll.v establish after every history; no top-down premise, no fuel premise',
+   C01_BINDERS + """  forall fuel fuel0 h ops, td_only ops ->
+  let w := snd (run_history RC OC P always fuel init_world h) in
+  let ra := run_session RC OC P always fuel (new_session w) ops in
+  let rb := run_session RC OC P always fuel0 (new_session (fresh_of w)) ops in
+  Forall Sim.is_done (fst ra) -> Forall Sim.is_done (fst rb) ->
+  fst ra = fst rb /\\ forall r, get_content (snd ra) r = get_content (snd rb) r""",
+   'intros gen wck RC OC P sf always HS HWF HC HW HOC. exact (incremental_equals_scratch_any_history gen wck RC OC P sf always HS HWF HC HW HOC).'),
+  ('C01_total_any_history',
+   'in the static class both sessions return, after every history (top-down, bottom-up, mixed): outputs and resource contents agree',
+   TOTAL_BINDERS + """  (forall c env r v v', rc_check (RC c) env r v' (sf c r v) = Consistent -> rc_view (RC c) v' = rc_view (RC c) v) ->
+  (forall c env r v v', wck c -> rc_check (RC c) env r v' (sf c r v) = Consistent -> v' = v) ->
+  (forall c o o', oc_check (OC c) o' (oc_stamp (OC c) o) = true -> oc_view (OC c) o' = oc_view (OC c) o) ->
+  forall fuel fuel0 h ops, roots_below ord fuel ops -> roots_below ord fuel0 ops ->
+  let w := snd (run_history RC OC P always fuel init_world h) in
+  let ra := run_session RC OC P always fuel (new_session w) ops in
+  let rb := run_session RC OC P always fuel0 (new_session (fresh_of w)) ops in
+  Forall Sim.is_done (fst ra) /\\ Forall Sim.is_done (fst rb) /\\ fst ra = fst rb /\\ forall r, get_content (snd ra) r = get_content (snd rb) r""",
+   'intros gen wck ord RC OC P sf always HS HWF HWO HC HW HOC. exact (incremental_equals_scratch_total_any_history gen wck ord RC OC P sf always HS HWF HWO HC HW HOC).'),
+]
+RAW['C19'] += [
+  ('C19_later_builds_equal_scratch_any_history',
+   'the soundness clause over EVERY history: after any number of aborted builds of either kind (top-down or bottom-up), at any point, a later session of requires that returns agrees with a from-scratch session in the current state (= C01_incremental_equals_scratch_any_history)',
+   RAW['C01'][-2][2], RAW['C01'][-2][3]),
+]
+
 RAW['C20'] = [
   ('C20_static_class_never_aborts_any_history',
    'the first clause for ALL histories: in the static class no build of ANY history aborts -- top-down requires and bottom-up builds in any mix (NoAbortAll.v: anchor-style pass carrying the invariants of NoBugAll.v, the exact-record invariant K of CertAll.v and Q of NoAbort.v); a build either completes or runs out of the model fuel',
@@ -332,4 +360,16 @@ RAW['C02'] += [
   let r2 := run_session RCx OCx Px 0 50 (new_session (snd r1)) opsx in
   fst r2 = fst r1 /\\ execs (rev (trace (snd r2))) = []""",
    'exact C02_idempotence_instance.'),
+]
+
+RAW['C02'] += [
+  ('C02_no_execution_beyond_from_scratch_any_history',
+   'the last clause over EVERY history (bottom-up builds and aborted builds included): every task the incremental session executes is also executed by the from-scratch session in the current state',
+   C01_BINDERS + """  forall fuel fuel0 h ops, td_only ops ->
+  let w := snd (run_history RC OC P always fuel init_world h) in
+  let ra := run_session RC OC P always fuel (new_session w) ops in
+  let rb := run_session RC OC P always fuel0 (new_session (fresh_of w)) ops in
+  Forall Sim.is_done (fst ra) -> Forall Sim.is_done (fst rb) ->
+  forall x, In x (execs (rev (trace (snd ra)))) -> In x (execs (rev (trace (snd rb))))""",
+   'intros gen wck RC OC P sf always HS HWF HC HW HOC. exact (incremental_executes_subset_any_history gen wck RC OC P sf always HS HWF HC HW HOC).'),
 ]
